@@ -373,6 +373,35 @@ def _inline_return_temps(fn):
                         del blk[i]
                         changed = True
                         continue
+                # `tmp = <expr>; return g(..., tmp, ...)` / `return a, tmp`: the temporary is the first thing the return statement
+                # evaluates apart from plain names and constants, so folding it back keeps the evaluation order
+                if isinstance(a, (ast.Assign, ast.AnnAssign)) and isinstance(b, ast.Return) and b.value is not None and not isinstance(b.value, ast.Name) \
+                        and getattr(a, "value", None) is not None:
+                    tg = a.targets[0] if isinstance(a, ast.Assign) and len(a.targets) == 1 else (a.target if isinstance(a, ast.AnnAssign) else None)
+                    if isinstance(tg, ast.Name) and uses.get(tg.id, 0) == 2 and not any(isinstance(x, (ast.Yield, ast.YieldFrom, ast.NamedExpr, ast.Lambda)) for x in ast.walk(a.value)):
+                        hit = None
+                        for x in _eval_order(b):
+                            if isinstance(x, ast.Name) and x.id == tg.id and isinstance(x.ctx, ast.Load):
+                                hit = x
+                                break
+                            if not isinstance(x, (ast.Name, ast.Constant)):
+                                break
+                        if hit is not None:
+                            holder = getattr(hit, "_parent", None)
+                            done_ = False
+                            for f_, val in ast.iter_fields(holder) if holder is not None else []:
+                                if val is hit:
+                                    setattr(holder, f_, a.value)
+                                    done_ = True
+                                elif isinstance(val, list) and any(y is hit for y in val):
+                                    val[[y is hit for y in val].index(True)] = a.value
+                                    done_ = True
+                            if done_:
+                                a.value._parent = holder
+                                del blk[i]
+                                changed = True
+                                i = max(i - 1, 0)       # the statement before may be a temporary feeding the folded expression
+                                continue
                 i += 1
     return changed
 
@@ -444,6 +473,15 @@ def _may_fall_through(stmts) -> bool:
     return True
 
 
+def _known_methods():
+    import json
+    import os
+    path = os.path.join(os.path.dirname(os.path.abspath(__file__)), "methods.json")
+    if not os.path.exists(path):
+        return None
+    return {k: {m.split("@")[0] for m in v} for k, v in json.load(open(path)).items()}
+
+
 def _known_module_functions():
     import json
     import os
@@ -466,6 +504,11 @@ def _helper_candidates(repo: Repo, prot: set):
             if isinstance(n, ast.Name):
                 nocc.setdefault((rel, n.id), []).append(n)
     known = _known_module_functions()
+    kmeth = _known_methods()
+    ndefs: dict[str, int] = {}
+    for f_ in repo.all_funcs:
+        if not f_.module.endswith("_trio.py"):
+            ndefs[f_.node.name] = ndefs.get(f_.node.name, 0) + 1
     out = []
     for f in list(repo.all_funcs):
         if f.module.endswith("_trio.py") or f.parent is not None:
@@ -504,17 +547,26 @@ def _helper_candidates(repo: Repo, prot: set):
         ok = True
         for at in sites:
             call = getattr(at, "_parent", None)
-            if is_method:
-                if not (isinstance(call, ast.Call) and call.func is at and isinstance(at.value, ast.Name) and at.value.id == "self"):
-                    ok = False
-                    break
-            elif not (isinstance(call, ast.Call) and call.func is at and isinstance(at.ctx, ast.Load)):
+            if not (isinstance(call, ast.Call) and call.func is at and isinstance(at.ctx, ast.Load)):
                 ok = False
                 break
             caller = repo.func_of(call)
-            if caller is None or (is_method and caller.cls != f.cls) or caller.module != f.module or caller.node is h or any(x is call for x in ast.walk(h)):
+            if caller is None or caller.module != f.module or caller.node is h or any(x is call for x in ast.walk(h)):
                 ok = False
                 break
+            if is_method:
+                own = isinstance(at.value, ast.Name) and at.value.id == "self" and caller.cls == f.cls
+                if not own:
+                    # "move method": a private method that did not exist in the reference tree, defined once in the package and
+                    # called through a pure attribute chain (`self._state._release()`): spliced in with `self` := the receiver
+                    fresh = kmeth is not None and name not in kmeth.get(f"{f.module}::{f.cls}", ())
+                    chain = at.value
+                    while isinstance(chain, ast.Attribute):
+                        chain = chain.value
+                    if not (fresh and isinstance(chain, ast.Name) and not h.decorator_list and ndefs.get(name, 0) == 1):
+                        ok = False
+                        break
+                    call._inline_recv = at.value
             outer, par = call, getattr(call, "_parent", None)
             awaited = isinstance(par, ast.Await)
             if awaited != isinstance(h, ast.AsyncFunctionDef):
@@ -594,6 +646,9 @@ def inline_fresh_helpers(repo: Repo, max_inlines: int = 200) -> list[str]:
             if len(call.args) > len(params) or any(isinstance(x, ast.Starred) for x in call.args) or any(k.arg is None for k in call.keywords):
                 ok_all = False
                 break
+            recv = getattr(call, "_inline_recv", None)
+            if recv is not None:
+                mapping[allp[0]] = recv
             for pn, av in zip(params, call.args):
                 mapping[pn] = av
             for k in call.keywords:
@@ -876,7 +931,7 @@ def _inline_single_use_temps(fn) -> bool:
                 if not ok and isinstance(a, (ast.Assign, ast.AnnAssign)) and getattr(a, "value", None) is not None and isinstance(b, ast.If):
                     tg = a.targets[0] if isinstance(a, ast.Assign) and len(a.targets) == 1 else (a.target if isinstance(a, ast.AnnAssign) else None)
                     v = a.value
-                    if isinstance(tg, ast.Name) and uses.get(tg.id, 0) == 2 and isinstance(v, (ast.BoolOp, ast.Compare, ast.UnaryOp)) \
+                    if isinstance(tg, ast.Name) and uses.get(tg.id, 0) == 2 and isinstance(v, (ast.BoolOp, ast.Compare, ast.UnaryOp, ast.Call, ast.Attribute)) \
                             and not any(isinstance(x, (ast.Await, ast.Yield, ast.YieldFrom, ast.NamedExpr, ast.Lambda)) for x in ast.walk(v)):
                         t = b.test
                         if isinstance(t, ast.Name) and t.id == tg.id:
